@@ -36,7 +36,7 @@ def firstWith (items : List (Option Nat × SDep × Str)) (b : Str) : Option SDep
   (items.find? fun it => serBody it.1 it.2.1 == b).map (·.2.1)
 
 def expectedDeps (items : List (Option Nat × SDep × Str)) : List SDep :=
-  (dedupKeepFirst (items.map fun it => serBody it.1 it.2.1)).filterMap fun b => (firstWith items b).map SDep.norm
+  (tdDedupKeepFirst (items.map fun it => serBody it.1 it.2.1)).filterMap fun b => (firstWith items b).map SDep.norm
 
 def remTextB (t0 : Str) : List (Option Nat × SDep × Str) → Str
   | [] => t0
@@ -59,17 +59,17 @@ def holdsExtract (t0 : Str) (items : List (Option Nat × SDep × Str)) (impl : O
   | some (rem, ds) => rem == remTextB t0 items && ds == expectedDeps items
 
 /-- `rem` is `h` followed by layout whitespace only (the newlines that joined the serialised copies) -/
-def wsSuffix (h rem : Str) : Bool := h.isPrefixOf rem && (rem.drop h.length).all isWs
+def wsSuffix (h rem : Str) : Bool := h.isPrefixOf rem && (rem.drop h.length).all jsonIsWs
 
 /-- `C13_json_mode_equiv` on a JSON-mode string: scanning it gives back the invisible-mode rendering (plus joining
     whitespace) and the dependencies, field by field -/
 def holdsJsonMode (h : Str) (ds : List SDep) (out : Str) : Bool :=
   let bodies := ds.map (serBody none)
-  let guard := !isInfix openMarker h && ds.all SDep.wellFormed && (dedupKeepFirst bodies).length == bodies.length
+  let guard := !isInfix openMarker h && ds.all SDep.wellFormed && (tdDedupKeepFirst bodies).length == bodies.length
   if !guard then true else
   let r := scan out.length out
   wsSuffix h r.1 &&
-    (match recoverAll (dedupKeepFirst r.2) with
+    (match recoverAll (tdDedupKeepFirst r.2) with
      | .ok got => got == ds.map SDep.norm
      | .error _ => false)
 
@@ -102,7 +102,7 @@ def holdsC13 : OpTable
     | .ok h =>
       let ds := collectSDeps n
       let bodies := ds.map (serBody none)
-      let guard := !isInfix openMarker h && ds.all SDep.wellFormed && (dedupKeepFirst bodies).length == bodies.length
+      let guard := !isInfix openMarker h && ds.all SDep.wellFormed && (tdDedupKeepFirst bodies).length == bodies.length
       if !guard then pure "T" else
       match impl with
       | none => pure "F"
